@@ -98,11 +98,14 @@ def ackSteps311 (firstByte : Nat) (p : Ack) : List Step :=
 def publishFirstByte (p : Publish) : Nat :=
   48 + (if p.dup then 8 else 0) + p.qos * 2 + (if p.retain then 1 else 0)
 
+def subIdStep (acc : Option Nat) (v : Nat) : Option Nat :=
+  match acc, vliSize v with
+  | some a, some s => some (a + 1 + s)
+  | _, _ => none
+
 def subIdsLen : Option (List Nat) → Option Nat
   | none => some 0
-  | some ids => ids.foldl (fun acc v => match acc, vliSize v with
-      | some a, some s => some (a + 1 + s)
-      | _, _ => none) (some 0)
+  | some ids => ids.foldl subIdStep (some 0)
 
 /-- `compute_publish_packet_length_properties5` -/
 def publishLengths5 (p : Publish) (r : Resolution) : Option (Nat × Nat) :=
